@@ -6,7 +6,7 @@
 (* the harness ("h" -> a DNS name, "h6" -> a bracketed IPv6 literal, ...).             *)
 EXTENDS Integers, Sequences, FiniteSets, TLC, Json
 
-Keywords == {"DIRECT", "PROXY", "HTTP", "HTTPS", "SOCKS", "SOCKS4", "SOCKS5", "FOO", "direct"}
+Keywords == {"DIRECT", "PROXY", "HTTP", "HTTPS", "SOCKS", "SOCKS4", "SOCKS5", "FOO", "direct", "proxy", "Socks5"}
 \* well-formed, IPv6, no port, no host, empty port, absent; signed port, port out of range, something after the
 \* port, a path - and "_h:1": a second blank between keyword and host:port; "T:h:1": a tab instead of the blank;
 \* "T_h:1": a tab and a blank (both browsers take blanks and tabs alike)
